@@ -354,6 +354,135 @@ def build_token_prog() -> dict:
     return {"prog": prog, "shape": shape}
 
 
+_OS_ENTROPY = {("os", "urandom"), ("secrets", "token_bytes"), ("secrets", "token_hex"), ("secrets", "token_urlsafe"),
+               ("secrets", "randbits"), ("uuid", "uuid4"), ("os", "getrandom")}
+_NEUTRAL_CALLS = {"str", "format", "hex", "int", "repr", "bytes", "bytearray"}
+_NEUTRAL_METHODS = {"hex", "format", "decode", "encode", "upper", "lower", "zfill", "rjust", "ljust", "join"}
+
+
+def build_instance_id_sources() -> list:
+    """Classify where QMI_Context._instance_id comes from.  Exactly one assignment, in __init__; every call in its value must be
+    one the classifier knows (OS entropy / global PRNG / clock / pid / id()), else TranslatorError."""
+    import ast
+    tree = ast.parse((core.REPO / "qmi" / "core" / "context.py").read_text())
+    alias = {}            # local name -> dotted module path or (module, attr)
+    for node in ast.walk(tree):
+        if isinstance(node, ast.Import):
+            for a in node.names:
+                alias[(a.asname or a.name).split(".")[0] if a.asname is None else a.asname] = (a.name if a.asname else a.name.split(".")[0],)
+        elif isinstance(node, ast.ImportFrom) and node.module:
+            for a in node.names:
+                alias[a.asname or a.name] = (node.module, a.name)
+    sites = []
+    for cls in ast.walk(tree):
+        if not isinstance(cls, ast.ClassDef):
+            continue
+        for fn in ast.walk(cls):
+            if not isinstance(fn, (ast.FunctionDef, ast.AsyncFunctionDef)):
+                continue
+            for st in ast.walk(fn):
+                targets = st.targets if isinstance(st, ast.Assign) else [st.target] if isinstance(st, (ast.AugAssign, ast.AnnAssign)) else []
+                for tg in targets:
+                    for sub in ast.walk(tg):
+                        if isinstance(sub, ast.Attribute) and sub.attr == "_instance_id":
+                            sites.append((cls.name, fn.name, st))
+    for node in ast.walk(tree):
+        if isinstance(node, ast.Call) and isinstance(node.func, ast.Name) and node.func.id == "setattr" and len(node.args) >= 2 \
+                and isinstance(node.args[1], ast.Constant) and node.args[1].value == "_instance_id":
+            raise TranslatorError(f"line {node.lineno}: _instance_id is written through setattr()")
+    if len(sites) != 1 or sites[0][:2] != ("QMI_Context", "__init__") or not isinstance(sites[0][2], (ast.Assign, ast.AnnAssign)):
+        raise TranslatorError(f"_instance_id must be assigned exactly once, in QMI_Context.__init__; found {[(c, f, s.lineno) for c, f, s in sites]}")
+    value = sites[0][2].value
+    if value is None:
+        raise TranslatorError("_instance_id is declared without a value")
+
+    def dotted(e):
+        if isinstance(e, ast.Name):
+            return alias.get(e.id, (e.id,)) if e.id in alias else ("<local>", e.id)
+        if isinstance(e, ast.Attribute):
+            base = dotted(e.value)
+            return None if base is None else base + (e.attr,)
+        if isinstance(e, ast.Call):                       # e.g. random.SystemRandom().getrandbits
+            base = dotted(e.func)
+            return None if base is None else base + ("()",)
+        return None
+
+    def const_int(args, default):
+        if args and isinstance(args[0], ast.Constant) and isinstance(args[0].value, int):
+            return args[0].value
+        if not args:
+            return default
+        raise TranslatorError(f"line {value.lineno}: size argument of the entropy call is not a literal")
+
+    src = []
+
+    def visit(e):
+        if isinstance(e, ast.Call):
+            d = dotted(e.func)
+            handled = False
+            if d is not None:
+                mod, name = d[0], d[-1]
+                if d[:2] == ("random", "SystemRandom") and len(d) >= 4:
+                    n = const_int(e.args, 0)
+                    src.append(f".osEntropy {n // 8 if name == 'getrandbits' else n}")
+                    handled = True
+                elif d == ("random", "SystemRandom"):
+                    handled = True                         # the generator object itself; the draw is classified above
+                elif (mod, name) in _OS_ENTROPY and len(d) == 2:
+                    n = {"uuid4": 15, "randbits": None}.get(name, None)
+                    if name == "uuid4":
+                        src.append(".osEntropy 15")
+                    elif name == "randbits":
+                        src.append(f".osEntropy {const_int(e.args, 0) // 8}")
+                    else:
+                        src.append(f".osEntropy {const_int(e.args, 32)}")
+                    handled = True
+                elif mod in ("random", "numpy") or d[:2] == ("numpy", "random"):
+                    src.append(".globalPrng")
+                    handled = True
+                elif mod in ("time", "datetime") or d == ("uuid", "uuid1"):
+                    src.append(".clock")
+                    handled = True
+                elif d in (("os", "getpid"), ("os", "getppid"), ("threading", "get_ident"), ("threading", "get_native_id")):
+                    src.append(".pid")
+                    handled = True
+                elif d == ("<local>", "id"):
+                    src.append(".objectId")
+                    handled = True
+                elif d[0] == "<local>" and len(d) == 2 and d[1] in _NEUTRAL_CALLS:
+                    handled = True
+                elif name in _NEUTRAL_METHODS and isinstance(e.func, ast.Attribute):
+                    handled = True                         # "{:012x}".format(...), (...).hex()
+            if not handled:
+                raise TranslatorError(f"line {e.lineno}: the value of _instance_id calls something the classifier does not know: {ast.unparse(e.func)}")
+            for a in list(e.args) + [k.value for k in e.keywords]:
+                visit(a)
+            if isinstance(e.func, ast.Attribute):
+                visit(e.func.value)
+            return
+        if isinstance(e, ast.Attribute):
+            if isinstance(e.value, ast.Name) and e.value.id == "self":
+                src.append(".clientState")
+                return
+            d = dotted(e)
+            if d is not None and d[0] in ("random", "time", "os", "secrets", "uuid", "numpy"):
+                return                                    # a module attribute on the way to a call (handled there)
+            raise TranslatorError(f"line {e.lineno}: the value of _instance_id reads {ast.unparse(e)}")
+        if isinstance(e, ast.Name):
+            if e.id in alias or e.id in ("self",):
+                return
+            src.append(".clientState")                     # some other local / global value
+            return
+        for ch in ast.iter_child_nodes(e):
+            if isinstance(ch, ast.expr):
+                visit(ch)
+
+    visit(value)
+    if not src:
+        src.append(".clientState")                          # a constant
+    return src
+
+
 def render_token_gen(t: dict) -> str:
     return ("import QmiModel.Model.TokenProg\n/-!\n# GENERATED by harness/props/c04.py:translate() — do not edit\n\n"
             "Statement list of `QMI_Context.make_unique_token` (qmi/core/context.py) read from its AST: the\n"
@@ -361,6 +490,8 @@ def render_token_gen(t: dict) -> str:
             "namespace QmiModel.Gen.TokenProg\nopen QmiModel.TokenProg\n"
             f"def prog : List Instr := [{', '.join('.' + p for p in t['prog'])}]\n"
             f"def shape : List TokPart := [{', '.join(t['shape'])}]\n"
+            "/-- sources of `QMI_Context._instance_id` (its single assignment, in `__init__`) -/\n"
+            f"def idSources : List IdSource := [{', '.join(t['id_sources'])}]\n"
             "end QmiModel.Gen.TokenProg\n")
 
 
@@ -1531,6 +1662,7 @@ class C04(Prop):
         core.write_if_changed(GEN_FILE, render_gen(t))
         self._tables = t
         tp = build_token_prog()
+        tp["id_sources"] = build_instance_id_sources()
         core.write_if_changed(GEN_TOKEN_FILE, render_token_gen(tp))
         self._token_prog = tp
         return [GEN_FILE, GEN_TOKEN_FILE]
